@@ -68,12 +68,14 @@ class Runner:
         shutil.rmtree(self.env.data_dir, ignore_errors=True)
 
     # -- helpers ---------------------------------------------------------------
-    def _crit(self, tlids, uris):
+    def _crit(self, tlids, uris, field="uri"):
+        # the model's second criterion is a list of tracks; the request names them by URI or,
+        # equivalently here (every track has its own name/genre/comment), by another field
         c = {}
         if tlids is not None:
             c["tlid"] = list(tlids)
         if uris is not None:
-            c["uri"] = [self.env.uri_of(k) for k in uris]
+            c[field] = [self.env.uri_of(k) if field == "uri" else getattr(self.env.track(k), field) for k in uris]
         return c
 
     def _deliver(self):
@@ -178,11 +180,11 @@ class Runner:
         if k == "move":
             return ("none", tl.move(op[1], op[2], op[3]))
         if k == "remove":
-            return ("tlts", tl.remove(self._crit(op[1], op[2])))
+            return ("tlts", tl.remove(self._crit(op[1], op[2], *(op[3:4]))))
         if k == "shuffle":
             return ("none", tl.shuffle(op[1], op[2]))
         if k == "filter":
-            return ("tlts", tl.filter(self._crit(op[1], op[2])))
+            return ("tlts", tl.filter(self._crit(op[1], op[2], *(op[3:4]))))
         if k == "slice":
             return ("tlts", tl.slice(op[1], op[2]))
         if k == "index":
